@@ -397,8 +397,15 @@ func LexerParts(src string) (*GenParts, error) {
 	return p, nil
 }
 
+// BaseParts: everything before `type _Stack` in base.gen.go is about the
+// grammar's terminals (constants, names); the runtime part that the carrier
+// relies on starts at the stack type.
 func BaseParts(src string) (*GenParts, error) {
-	return SplitGen(src, nil, []string{"func _TokenToString("}, true)
+	i := strings.Index(src, "type _Stack[")
+	if i < 0 {
+		return nil, fmt.Errorf("base.gen.go has no _Stack type")
+	}
+	return &GenParts{Skeleton: src[i:], Consts: src[:i], Tables: map[string][]int64{}, Funcs: map[string]string{}}, nil
 }
 
 // FirstDiff describes the first differing line of two texts.
